@@ -29,7 +29,7 @@ ROOT = os.path.dirname(HERE)
 OUT = os.path.join(ROOT, "lean", "TflModel", "Generated", "Accept.lean")
 CACHE = os.path.join(ROOT, "lean", ".lake", "accept_cache.json")
 TABLE_ROWS = 3000          # rows per class in the kernel-checked table when the product is sampled
-FULL_LIMIT = 10000         # cross products up to this size (baselines counted separately) are tabulated exhaustively
+FULL_LIMIT = 13000         # cross products up to this size (baselines counted separately) are tabulated exhaustively
 CHUNK = 500
 
 TOKS = ["increasing", "decreasing", "none", "peak", "valley", "positive", "negative", "convex",
@@ -407,7 +407,11 @@ def _specs():
            [(0, 1), (0, 1)], [(0, 1), (0, 2), (1, 3), (2, 3)], [(2, 3), (1, 2), (0, 1)], [(0, 1), (1, 2), (0, 2)],
            [(0, 1), (1, 1)], [(1, 1), (0, 2)], [(0, 1), (1, 2), (2, 0)], [(0, 1), (1, 2), (2, 3), (3, 1)],
            [(1, 2), (2, 1), (2, 3)], [[0, 1], [1, 0]], [(0, 1), (1.0, 0)], [(0, 1.0)], [(0, 1), (1, 0), (0, 7)],
-           [(0, 1), (1, 0), (0, 1)], [(3, 2), (2, 1), (1, 0), (0, 3)]]
+           [(0, 1), (1, 0), (0, 1)], [(3, 2), (2, 1), (1, 0), (0, 3)],
+           # fix ab2e39a: indices must be numbers.Integral — bools pass (True is the int 1), floats (integral or
+           # not, in either position, after a valid pair), None and strings are ValueError
+           [(False, True)], [(0, True)], [(True, True)], [(0, 1.5)], [(0.0, 1.0)], [(0.5, 1)], [(0, 1), (1, 2.0)],
+           [(None, 1)], [(0, "none")], [(0, 1), (-1.0, 0)], [(0, 7.0)]]
   def cc_factors(b):
     return dict(num_buckets=[1, 2, 3, 4, None], output_min=OUTB, output_max=OUTB, monotonicities=PAIRS)
   S.append(Spec("CategoricalCalibrationConstraints", "categoricalConstraints",
